@@ -265,6 +265,9 @@ type stream struct {
 
 func genCase(t *rapid.T) Case {
 	c := Case{Flows: genFlows(t), ElemOrder: rapid.SampledFrom([]int{0, 0, 1, 2, 3}).Draw(t, "elem_order")}
+	if rapid.IntRange(0, 3).Draw(t, "http_vals") == 0 {
+		c.ElemOrder |= 4 // the process also merges httpVals; every record carries one (mergeable or not)
+	}
 	streams := map[string]*stream{}
 	used := map[int]map[uint32]bool{}
 	n := rapid.IntRange(2, 60).Draw(t, "n")
@@ -300,6 +303,10 @@ func genCase(t *rapid.T) Case {
 		used[fi][e] = true
 		s.end = e
 		r := aggh.Rec{Flow: fi, Side: side, Start: s.start, End: e, Layout: s.layout, TCPState: rapid.SampledFrom([]string{"ESTABLISHED", "TIME_WAIT", "CLOSE", ""}).Draw(t, "tcp")}
+		if c.ElemOrder&4 != 0 {
+			v := rapid.SampledFrom([]string{"", `{"1":"GET /a"}`, `{"2":"POST /b","3":"GET /c"}`, `{"1":"GET /other"}`, "not json", `{"1":`, "[]", `{"x":"GET"}`}).Draw(t, "http")
+			r.HTTP = &v
+		}
 		for i := range r.Tot {
 			switch rapid.IntRange(0, 5).Draw(t, "grow") {
 			case 0: // unchanged
@@ -362,6 +369,9 @@ func TestC05(t *testing.T) {
 		}
 		if st.Exports > 0 {
 			cl = append(cl, "has_export")
+		}
+		if c.ElemOrder&4 != 0 {
+			cl = append(cl, "http_values_merged_too")
 		}
 		for _, fl := range c.Flows {
 			cl = append(cl, fmt.Sprintf("kind_%d", fl.Kind))
